@@ -33,7 +33,7 @@ open Tickit Tickit.Driver Tickit.Modes
 structure St where
   sys   : Option Sys := none
   gone  : Bool := false
-  phase : Phase := .running
+  phase : PhaseW := .running
   vt    : VT := {}
   vt0   : VModes := {}
   lg    : Ghost := {}
@@ -227,7 +227,7 @@ def capOf (ctl : List String) : Bool := ctl.getLast? == some "1"
 def ghostStep (st : St) (op : Op) (implRet : String) : St :=
   let ret : Option Bool := if implRet = "1" then some true else if implRet = "0" then some false else none
   let lg := st.lg.step op ret st.ua
-  match phaseNext st.phase op with
+  match phaseNextW st.phase op with
   | some ph => { st with lg := lg, phase := ph, inContract := st.inContract && opOk op && handoverOk st.vt0 op }
   | none => { st with lg := lg, inContract := false }
 
@@ -245,8 +245,13 @@ def specAfter (st : St) (what : String) (obs : ImplObs) : String :=
     -- on a terminal handed over with a hidden cursor the program (inside the contract) never sets cursor
     -- visibility: there is no "value last set" to read back
     let g := if obs.ctl.isEmpty then [] else checkGetctl st.vt0.cursorVisible obs.ctl st.lg
-    let restored := st.gone || st.phase != .running
-    if restored then
+    let restored := st.gone || st.phase == .paused || st.phase == .stopped
+    if !restored && st.phase == .pausedOps then
+      -- paused, and the program has called the library since: what it switched on is on the terminal now (to be
+      -- switched back by teardown / destruction, re-established by resume); only the read-backs are judged here
+      let v := if (st.vt.feed obs.held).ps ≠ .ground then ["output ends inside an escape sequence"] else []
+      "; ".intercalate (g ++ v)
+    else if restored then
       -- pause / teardown / destruction: judged on what has reached the terminal when the call returns
       let h := clause (!obs.held.isEmpty) s!"after {what}: {obs.held.length} bytes written by the call are still in the output buffer when it returns"
       let v :=
